@@ -150,6 +150,9 @@ package auparse
 //@ requires -1 <= m.offset && m.offset <= len(m.RawData)
 //@ modifies m.data, m.error, m.tags, alloc
 //@ ensures[C05] old(m.data != nil || !isNil(m.error)) ==> result0 == old(m.tags) && result1 == old(m.error)
+//@ ensures[C05] m.data != nil || !isNil(m.error)
+//@ ensures[C05] old(m.data != nil || !isNil(m.error)) ==> m.data == old(m.data) && m.error == old(m.error) && m.tags == old(m.tags)
+//@ ensures[C05] -1 <= m.offset && m.offset <= len(m.RawData)
 //@ func (*auparse.AuditMessage).ToMapStr
 //@ requires -1 <= m.offset && m.offset <= len(m.RawData)
 //@ modifies m.data, m.error, m.tags, alloc
